@@ -56,6 +56,10 @@ def _factory(params, env=None):
                 p.create("/other/f/c", io.BytesIO(b"fc-%d" % side))
                 p.mkdir(rt + "/priv")
                 p.create(rt + "/priv/k", io.BytesIO(b"private-%d" % side))
+                if p.case_sensitive:
+                    # a sibling of the root whose name differs from the root's only by case: outside the root on a case-sensitive account
+                    p.mkdir(rt.lower())
+                    p.create(rt.lower() + "/secret", io.BytesIO(b"case-sibling-%d" % side))
             lab.p[0].create("/L/a", io.BytesIO(b"base-a"))
             lab.p[0].mkdir("/L/d")
             lab.p[0].create("/L/d/c", io.BytesIO(b"base-dc"))
@@ -128,6 +132,10 @@ def _factory(params, env=None):
             h.drain()
             tl, tr = lab.tree(0), lab.tree(1)
             info = dict(local=show(tl), remote=show(tr))
+            for t in (tl, tr):
+                for k_, v_ in t.items():
+                    if isinstance(v_, bytes) and v_.startswith(b"case-sibling-"):
+                        raise Fail("content from outside a root (a sibling whose name differs from the root's only by case) was copied into a root", path=k_, symptom="outside-copied-in", **info)
             if variant == "declining-translate":
                 # declined paths are left alone on both sides: the engine changes nothing under <root>/priv on either side
                 for side, t in ((0, tl), (1, tr)):
@@ -254,6 +262,12 @@ def jobs(tier):
                 for oi in (9, 11, 13):
                     out.append({"harness": "confine", "params": {"flavour": f, "variant": "by-path", "nops": 2, "slots": 1, "first": [side, oi]},
                                 "label": "%s/by-path/2-ops/first=%d:%s" % (f, side, "-".join(str(x) for x in OPS[oi] if x))})
+    # accounts that differ in case sensitivity: membership in a root is decided by the rules of the account the path lives in
+    for f in ("oid-cics", "oid-csci"):
+        for side in (0, 1):
+            for oi in ((0, 3) if q else range(len(OPS))):
+                out.append({"harness": "confine", "params": {"flavour": f, "variant": "by-path", "nops": 1, "slots": 2, "first": [side, oi]},
+                            "label": "%s/by-path/first=%d:%s" % (f, side, "-".join(str(x) for x in OPS[oi] if x))})
     for f in (("oid",) if q else ("oid", "oid-filt")):
         for side in (0, 1):
             for oi in (9, 11):
